@@ -58,18 +58,25 @@ def stats(path):
     return last or {}
 
 
-def split_rows(path, parts, outdir, prefix, header_ev=None):
-    """Split a file of self-contained rows into `parts` files (a header row, if any, is repeated)."""
+def split_rows(path, parts, outdir, prefix, header_ev=None, interleave=False):
+    """Split a file of self-contained rows into `parts` files (a header row, if any, is repeated).
+    `interleave` deals the rows round-robin (expensive rows are clustered at the end of a file)."""
     lines = open(path).read().splitlines()
     header = []
     if header_ev and lines and ('"ev":"%s"' % header_ev) in lines[0][:40]:
         header, lines = [lines[0]], lines[1:]
-    per = max(1, -(-len(lines) // parts))
+    if interleave:
+        chunks = [lines[i::parts] for i in range(parts)]
+    else:
+        per = max(1, -(-len(lines) // parts))
+        chunks = [lines[i:i + per] for i in range(0, len(lines), per)]
     out = []
-    for i in range(0, len(lines), per):
+    for c in chunks:
+        if not c:
+            continue
         p = os.path.join(outdir, "%s_%d.ndjson" % (prefix, len(out)))
         with open(p, "w") as f:
-            f.write("\n".join(header + lines[i:i + per]) + "\n")
+            f.write("\n".join(header + c) + "\n")
         out.append(p)
     return out
 
